@@ -37,6 +37,7 @@ type Event struct {
 	Gw       string    `json:"gw"`       // proposal.Provider (Store)
 	Data     string    `json:"data"`
 	Commit   string    `json:"commit"` // symbolic, segments joined by "|"
+	Cseg     []string  `json:"cseg"`   // derived: Commit split on "|"
 	Op       int64     `json:"op"`
 	Dur      int64     `json:"dur"`
 	Replica  int64     `json:"replica"`
@@ -78,6 +79,7 @@ func (e *Event) Normalize() {
 	if e.SigMode == "" {
 		e.SigMode = "ok"
 	}
+	e.Cseg = strings.Split(e.Commit, "|")
 }
 
 // ShardResp is a shard assignment returned by Store/Ready.
@@ -99,6 +101,7 @@ type Outcome struct {
 	Claimed int64       `json:"claimed"` // ClaimReward response
 	Phase   string      `json:"phase"`   // where a block event failed
 	Blocks  int64       `json:"blocks"`  // blocks actually advanced
+	Insufficient bool   `json:"insufficient"` // failure text mentions insufficient funds
 }
 
 func (c *Chain) dataConcrete(sym string) string {
@@ -258,6 +261,7 @@ func (c *Chain) Exec(e *Event) Outcome {
 			r, phase, pm := c.EndAndBegin(e.Status == 1)
 			if r != "ok" {
 				out.Result, out.Phase, out.Err = r, phase, pm
+				out.Insufficient = strings.Contains(pm, "insufficient funds")
 				return out
 			}
 			out.Blocks++
@@ -271,6 +275,7 @@ func (c *Chain) Exec(e *Event) Outcome {
 	}
 	tr := c.Deliver(msg)
 	out.Result, out.Panic, out.Err, out.Space, out.Code = tr.Result, tr.Panic, tr.Err, tr.Space, int64(tr.Code)
+	out.Insufficient = strings.Contains(out.Err, "insufficient funds")
 	if tr.Result != "ok" {
 		return out
 	}
